@@ -51,6 +51,9 @@ int mantis_parallel_ecb_init(MantisParallelECB_t *ecb)
     MantisKey_t *ctx;
     if (!ecb)
         return 0;
+    ecb->vtable = 0;
+    ecb->ctx = 0;
+    ecb->parallel_size = 0;
     if ((ctx = calloc(1, sizeof(MantisKey_t))) == NULL)
         return 0;
     ecb->vtable = 0;
